@@ -194,7 +194,20 @@ func checkDelivery(tag string, subs []*sub, pubs [][]byte, ems []emitter, skip m
 			wait = 300 * time.Millisecond
 		}
 		deadline := time.Now().Add(wait)
-		for s.st.count() < len(want) && time.Now().Before(deadline) {
+		last, lastChange := -1, time.Now()
+		for time.Now().Before(deadline) {
+			c := s.st.count()
+			if c >= len(want) {
+				break
+			}
+			if c != last {
+				last, lastChange = c, time.Now()
+			}
+			// every matching VAA has arrived at least once and nothing has moved for a while: an implementation
+			// that delivers once per VAA instead of once per matching filter is allowed, do not wait for more
+			if c >= minWant && time.Since(lastChange) > 150*time.Millisecond {
+				break
+			}
 			time.Sleep(200 * time.Microsecond)
 		}
 		s.st.mu.Lock()
@@ -206,27 +219,46 @@ func checkDelivery(tag string, subs []*sub, pubs [][]byte, ems []emitter, skip m
 		for k, v := range extra {
 			w[k] = v
 		}
-		// exact sequence (multiplicity = number of matching filters, as the property allows <=)
-		gi := 0
-		ok := true
+		// every delivered VAA is a published one that matches a filter, in publication order, at least once and
+		// at most once per matching filter
+		index := map[string]int{}
 		for i, b := range pubs {
-			k := s.matches(ems[i])
-			c := 0
-			for gi < len(got) && string(got[gi]) == string(b) && c < k {
-				gi++
-				c++
+			index[string(b)] = i
+		}
+		times := map[int]int{}
+		prevIdx, bad := -1, ""
+		for _, g := range got {
+			i, known := index[string(g)]
+			switch {
+			case !known:
+				bad = "never-published-VAA-delivered"
+			case s.matches(ems[i]) == 0:
+				bad = "non-matching-VAA-delivered"
+				w["non_matching_emitter"] = fmt.Sprintf("%d/..%x", ems[i].chain, ems[i].addr[30:])
+			case i < prevIdx:
+				bad = "VAAs-delivered-out-of-order"
 			}
-			if k > 0 && c == 0 {
-				ok = false
+			if bad != "" {
+				break
+			}
+			prevIdx = i
+			times[i]++
+		}
+		if bad != "" {
+			r.Violation(tag+":"+bad, w)
+			continue
+		}
+		for i := range pubs {
+			k := s.matches(ems[i])
+			if k > 0 && times[i] == 0 {
 				r.Count("missing_delivery_waits", 1)
 				r.Violation(tag+":matching-VAA-not-delivered", w)
 				break
 			}
-		}
-		if ok && gi != len(got) {
-			// something extra or out of order
-			cls := tag + ":non-matching-or-reordered-VAA-delivered"
-			r.Violation(cls, w)
+			if times[i] > k {
+				r.Violation(tag+":VAA-delivered-more-often-than-filters-match", w)
+				break
+			}
 		}
 	}
 }
@@ -450,8 +482,7 @@ func main() {
 	for c := 0; c < 4; c++ {
 		for a := 0; a < 3; a++ {
 			e := emitter{chain: []uint16{2, 4, 255, 10}[c]}
-			e.addr[31] = byte(a + 1)
-			e.addr[0] = byte(c)
+			e.addr[31] = byte(a + 1) // the same three addresses exist on every chain (bridges are deployed at one address on several chains)
 			universe = append(universe, e)
 		}
 	}
@@ -478,5 +509,5 @@ func main() {
 		r.Inconclusive("nothing observed")
 	}
 	r.Assume("decodable VAAs with non-empty payload; a blocked Publish is reported only with the structural witness (goroutine parked in chan send inside spy.go, subscription mutex unavailable at two instants 1 s apart)")
-	r.Finish("evaluations", "scenarios_distinct", "delivery: 1-8 subscribers x 0-3 filters (with repeated filters) x 5-60 VAAs from a 4x3 emitter universe, received sequence = matching published VAAs in order; independence: one subscriber stalls in Send forever / disconnects cleanly / disconnects with a backlog at a generated point, afterwards every Publish must return, the others receive everything, subscriptions register and are removed; distinct non-trivial = distinct (kind, subscriber/filter layout, stream length)", 50)
+	r.Finish("evaluations", "scenarios_distinct", "delivery: 1-8 subscribers x 0-3 filters (with repeated filters) x 5-60 VAAs from a 4 chains x 3 addresses emitter universe (every address exists on every chain), received sequence = matching published VAAs in order; independence: one subscriber stalls in Send forever / disconnects cleanly / disconnects with a backlog at a generated point, afterwards every Publish must return, the others receive everything, subscriptions register and are removed; distinct non-trivial = distinct (kind, subscriber/filter layout, stream length)", 50)
 }
